@@ -69,6 +69,27 @@ def rpcCmd : List String → String
     | none => "bad-op"
   | _ => "bad-op"
 
+/-- `wire <prog> <proc> <hex>`: decode a whole reply message with the RFC 1831 reply decoder and, for an
+    accepted SUCCESS reply, its results with the RFC 1813 / MOUNT result decoder of (prog, proc). -/
+def wireCmd : List String → String
+  | [prog, proc, h] => match prog.toNat?, proc.toNat?, fromHex h with
+    | some prog, some proc, some bs =>
+      match decReply Gen.maxRpcAuth bs with
+      | none => "bad-rpc"
+      | some (.success xid _ results) =>
+        (match Rfc.decRes prog proc results with
+         | some r => s!"ok xid={xid} accepted status={r.status}"
+         | none => s!"bad-result xid={xid}")
+      | some (.progUnavail xid _) => s!"ok xid={xid} prog-unavail"
+      | some (.progMismatch xid _ lo hi) => s!"ok xid={xid} prog-mismatch {lo} {hi}"
+      | some (.procUnavail xid _) => s!"ok xid={xid} proc-unavail"
+      | some (.garbageArgs xid _) => s!"ok xid={xid} garbage-args"
+      | some (.systemErr xid _) => s!"ok xid={xid} system-err"
+      | some (.rpcMismatch xid _ _) => s!"ok xid={xid} rpc-mismatch"
+      | some (.authError xid st) => s!"ok xid={xid} auth-error {st}"
+    | _, _, _ => "bad-op"
+  | _ => "bad-op"
+
 def rmCmd : List String → String
   | ["read", m, h] => match m.toInt?, fromHex h with
     | some m, some bs => optHexPair (readRecord (effMaxRec m) bs)
@@ -590,6 +611,7 @@ def step (st : St) (line : String) : St × String :=
   | "xdr" :: args => (st, xdrCmd args)
   | "rpc" :: args => (st, rpcCmd args)
   | "rm" :: args => (st, rmCmd args)
+  | "wire" :: args => (st, wireCmd args)
   | "access" :: args => (st, accessCmd args)
   | "auth" :: args => (st, authCmd args)
   | "handles" :: args => handlesCmd st args
